@@ -374,6 +374,20 @@ func genC19(c *Ctx) {
 			blobs = append(blobs, randBlob(r, nss, 600))
 		}
 		inner := r.Bytes(r.Intn(80))
+		switch r.Intn(8) {
+		case 0: // payloads that contain the type ids themselves
+			inner = append(append(r.Bytes(r.Intn(20)), []byte("BLOB")...), r.Bytes(r.Intn(20))...)
+		case 1:
+			inner = append(append(r.Bytes(r.Intn(20)), []byte("INDX")...), r.Bytes(r.Intn(20))...)
+		case 2: // a marshalled blob transaction / index wrapper nested as the inner transaction
+			if nb, err := tx.MarshalBlobTx(r.Bytes(10), blobs[0].blob()); err == nil {
+				inner = nb
+			}
+		case 3:
+			if nw, err := tx.MarshalIndexWrapper(r.Bytes(10), 7, 70000); err == nil {
+				inner = nw
+			}
+		}
 		specs := make([]string, len(blobs))
 		bl := make([]*share.Blob, len(blobs))
 		for j, x := range blobs {
